@@ -662,6 +662,35 @@ pub(crate) fn unify_types(t1: TypeNodeId, t2: TypeNodeId) -> Result<Relation, Ve
     Ok(res)
 }
 
+// ---- H3 (verification hook, add-only): the unifier as the type checker calls it ----
+// `args` selects `unify_types_args` (the argument position of a function type) instead of `unify_types`.
+// Ok(relation): 0 = Subtype, 1 = Identical, 2 = Supertype.
+// Err(kinds), one entry per reported error in order: 0 = TypeMismatch, 1 = LengthMismatch, 2 = CircularType,
+// 3 = ImcompatibleRecords.
+#[cfg(mimium_verif)]
+pub fn verif_unify(args: bool, t1: TypeNodeId, t2: TypeNodeId) -> Result<u8, Vec<u8>> {
+    let res = if args {
+        unify_types_args(t1, t2)
+    } else {
+        unify_types(t1, t2)
+    };
+    res.map(|r| match r {
+        Relation::Subtype => 0u8,
+        Relation::Identical => 1u8,
+        Relation::Supertype => 2u8,
+    })
+    .map_err(|es| {
+        es.iter()
+            .map(|e| match e {
+                Error::TypeMismatch { .. } => 0u8,
+                Error::LengthMismatch { .. } => 1u8,
+                Error::CircularType { .. } => 2u8,
+                Error::ImcompatibleRecords { .. } => 3u8,
+            })
+            .collect()
+    })
+}
+
 #[cfg(test)]
 mod tests {
     use std::path::PathBuf;
